@@ -1,5 +1,7 @@
 import Model.NumberTheory
 import Proofs.NTInv
+import Proofs.NTJacobi
+import Proofs.NTSqrt
 /-!
 # C15 — modular inverse, modular square root, Jacobi symbol
 
@@ -7,7 +9,7 @@ The model is `Model/NumberTheory.lean` (`NT.*`) over the pieces regenerated from
 (`Gen.NT.inverse_mod`, `Gen.NT.jacobi_*`, …).
 -/
 namespace C15
-open NT NTProofs
+open NT NTProofs NumberTheorySymbols
 
 /-! ## inverse_mod (the live variant: `if a == 0: return 0; return pow(a, -1, m)`) -/
 
@@ -44,5 +46,75 @@ theorem inverse_mod_other_inputs (a m : Int) :
 example : Int.gcd (-3) 2305843009213693951 = 1 ∧ inverseMod (-3) 2305843009213693951 = .ok 768614336404564650 ∧
     inverseMod (2305843009213693951 * 5 + 3) 7 = .ok 1 ∧ inverseMod 6 9 = .error .valueError ∧ inverseMod 3 (-7) = .ok (-2) := by
   decide +kernel
+
+
+/-! ## jacobi -/
+
+/-- for every integer `a` and every odd `n ≥ 3` the code's `jacobi(a, n)` is the Jacobi symbol.  Mathlib's
+`jacobiSym a n` is *by definition* the product of the Legendre symbols `legendreSym q a` over the prime
+factorisation `q ∈ n.primeFactorsList` (with multiplicity) — the wording of the property (`jacobi_is_product`). -/
+theorem jacobi_eq_jacobiSym (a : Int) (n : Nat) (hn3 : 3 ≤ n) (hodd : n % 2 = 1) :
+    jacobi a n = .ok (jacobiSym a n) :=
+  jacobi_eq a n hn3 hodd
+
+/-- the definition of `jacobiSym` spelled out: product of Legendre symbols over the prime factorisation -/
+theorem jacobi_is_product (a : Int) (n : Nat) (hn3 : 3 ≤ n) (hodd : n % 2 = 1) :
+    jacobi a n = .ok (n.primeFactorsList.pmap (fun q pq => @legendreSym q ⟨pq⟩ a) fun _ pf => Nat.prime_of_mem_primeFactorsList pf).prod :=
+  jacobi_eq a n hn3 hodd
+
+/-- even `n` or `n < 3`: `AssertionError` (this version of the code has `assert`s, no `JacobiError`) -/
+theorem jacobi_assertions (a n : Int) (h : n < 3 ∨ n % 2 = 0) : jacobi a n = .error .assertionError :=
+  jacobi_assert a n h
+
+/-- non-vacuity: a composite modulus above 1000 and a negative / oversized argument -/
+example : jacobi (-7) 1001 = .ok 0 ∧ jacobi 1234567 1003 = .ok (-1) ∧ jacobi 5 21 = .ok 1 ∧ jacobi 3 4 = .error .assertionError := by
+  decide +kernel
+
+/-! ## square roots modulo a prime -/
+
+/-- `a = 0` (any modulus `p > 1`) -/
+theorem sqrt_zero (p : Int) (hp : 1 < p) : squareRootModPrime 0 p = .ok 0 := by
+  unfold squareRootModPrime
+  have : ¬ p ≤ 0 := by omega
+  simp [hp]; omega
+
+/-- `p = 2` -/
+theorem sqrt_p2 (a : Int) (h0 : 0 ≤ a) (h1 : a < 2) :
+    ∃ r, squareRootModPrime a 2 = .ok r ∧ 0 ≤ r ∧ r < 2 ∧ (r * r) % 2 = a % 2 := by
+  have : a = 0 ∨ a = 1 := by omega
+  rcases this with rfl | rfl
+  · exact ⟨0, by decide +kernel, by decide, by decide, by decide⟩
+  · exact ⟨1, by decide +kernel, by decide, by decide, by decide⟩
+
+/-- the documented precondition: `AssertionError` outside `0 ≤ a < p`, `1 < p` -/
+theorem sqrt_assertions (a p : Int) (h : a < 0 ∨ p ≤ a ∨ p ≤ 1) : squareRootModPrime a p = .error .assertionError := by
+  unfold squareRootModPrime
+  by_cases c : 0 ≤ a ∧ a < p
+  · have : ¬ 1 < p := by omega
+    simp [c, this]
+  · simp [c]
+
+/-- every odd prime, **every residue class of p including 1 mod 8**: a non-residue raises `SquareRootError` -/
+theorem sqrt_nonresidue (p : Nat) (hp : p.Prime) (hp2 : p ≠ 2) (a : Int) (h0 : 0 < a) (h1 : a < p)
+    (hn : ¬ IsSquare (a : ZMod p)) : squareRootModPrime a p = .error .squareRoot :=
+  haveI := Fact.mk hp; sqrt_nonresidue' hp2 a h0 h1 hn
+
+/-- p ≡ 3 (mod 4) (this covers 3 and 7 mod 8): a residue gets a root `r`, `r·r ≡ a`, `0 ≤ r < p` -/
+theorem sqrt_3mod4 (p : Nat) (hp : p.Prime) (h34 : p % 4 = 3) (a : Int) (h0 : 0 < a) (h1 : a < p)
+    (hs : IsSquare (a : ZMod p)) :
+    ∃ r, squareRootModPrime a p = .ok r ∧ 0 ≤ r ∧ r < p ∧ (r * r) % p = a % p :=
+  haveI := Fact.mk hp; sqrt_3mod4' h34 a h0 h1 hs
+
+/-- p ≡ 5 (mod 8), both sub-branches (`d = 1` and `d = p − 1`); the `RuntimeError("Shouldn't get here.")` is
+unreachable because the result is `.ok` -/
+theorem sqrt_5mod8 (p : Nat) (hp : p.Prime) (h58 : p % 8 = 5) (a : Int) (h0 : 0 < a) (h1 : a < p)
+    (hs : IsSquare (a : ZMod p)) :
+    ∃ r, squareRootModPrime a p = .ok r ∧ 0 ≤ r ∧ r < p ∧ (r * r) % p = a % p :=
+  haveI := Fact.mk hp; sqrt_5mod8' h58 a h0 h1 hs
+
+/-- non-vacuity: residues and a non-residue in each class, both sub-branches of 5 mod 8 (d = 1: a = 4; d = p-1: a = 5) -/
+example : squareRootModPrime 2 7 = .ok 4 ∧ squareRootModPrime 3 7 = .error .squareRoot ∧
+    squareRootModPrime 4 29 = .ok 27 ∧ squareRootModPrime 5 29 = .ok 18 ∧ squareRootModPrime 2 29 = .error .squareRoot ∧
+    squareRootModPrime 3 17 = .error .squareRoot ∧ squareRootModPrime 2 17 = .ok 6 := by decide +kernel
 
 end C15
